@@ -25,6 +25,7 @@ def genTables : Tables :=
     exeVarTypeOptional := Gen.exeVarTypeOptional,
     opFallbackAnyName := Gen.opFallbackAnyName,
     fieldPosAfterLookahead := Gen.fieldPosAfterLookahead,
+    opErrPosAfterLookahead := Gen.opErrPosAfterLookahead,
     leafErrNulls := Gen.leafErrNulls, fastSliceCopies := Gen.fastSliceCopies }
 
 def main (args : List String) : IO Unit := run genTables args
